@@ -2,6 +2,7 @@ package main
 
 import (
 	"fmt"
+	"github.com/bnb-chain/tss-lib/v2/crypto"
 	"math/big"
 	"math/rand"
 	"strings"
@@ -38,9 +39,10 @@ func blameCorrespondenceEc(r *Run, rng *rand.Rand, thorough bool) {
 		{"KGRound2Message1", "share", "+1", 0}, {"KGRound2Message1", "facProof", "+1", 6}, {"KGRound2Message1", "facProof", "empty", 2},
 		{"KGRound2Message2", "de_commitment", "+1", 1}, {"KGRound2Message2", "modProof", "+1", 3}, {"KGRound2Message2", "modProof", "drop-field", 0},
 		{"KGRound2Message2", "de_commitment", "drop-field", 0}, {"KGRound1Message", "commitment", "random", 0},
-		{"KGRound2Message1", "share", "negq", 0}}
+		{"KGRound2Message1", "share", "negq", 0},
+		{"KGRound3Message", "paillier_proof", "+1", 4}, {"KGRound3Message", "paillier_proof", "other", 0}, {"KGRound3Message", "paillier_proof", "+1", 12}}
 	if !thorough {
-		pick := []int{0, 1 + int(r.Seed)%3, 4 + int(r.Seed)%3, 7 + int(r.Seed)%3, 10 + int(r.Seed)%3, 13 + int(r.Seed)%2, 15}
+		pick := []int{1 + int(r.Seed)%6, 7 + int(r.Seed)%3, 10 + int(r.Seed)%3, 13 + int(r.Seed)%3, 16 + int(r.Seed)%3}
 		var t2 []tw
 		for _, i := range pick {
 			t2 = append(t2, tweaks[i])
@@ -90,9 +92,13 @@ func blameCorrespondenceEc(r *Run, rng *rand.Rand, thorough bool) {
 			r1 := map[int]*ecdsakeygen.KGRound1Message{}
 			r21 := map[int]*ecdsakeygen.KGRound2Message1{}
 			r22 := map[int]*ecdsakeygen.KGRound2Message2{}
+			r3 := map[int]*ecdsakeygen.KGRound3Message{}
 			for _, m := range nd.Emitted {
-				if c, ok := m.(tss.ParsedMessage).Content().(*ecdsakeygen.KGRound1Message); ok {
+				switch c := m.(tss.ParsedMessage).Content().(type) {
+				case *ecdsakeygen.KGRound1Message:
 					r1[i] = c
+				case *ecdsakeygen.KGRound2Message2:
+					r22[i] = c
 				}
 			}
 			for _, d := range net.Delivered {
@@ -106,6 +112,8 @@ func blameCorrespondenceEc(r *Run, rng *rand.Rand, thorough bool) {
 					r21[d.From] = c
 				case *ecdsakeygen.KGRound2Message2:
 					r22[d.From] = c
+				case *ecdsakeygen.KGRound3Message:
+					r3[d.From] = c
 				}
 			}
 			if len(r1) != n {
@@ -162,7 +170,7 @@ func blameCorrespondenceEc(r *Run, rng *rand.Rand, thorough bool) {
 				continue
 			}
 			go3 := "ok culprits=_"
-			if nd.Err != nil {
+			if nd.Err != nil && nd.Err.Round() <= 3 {
 				if nd.Err.Round() != 3 || refusedBeforeStore(nd.Err) {
 					continue
 				}
@@ -175,6 +183,52 @@ func blameCorrespondenceEc(r *Run, rng *rand.Rand, thorough bool) {
 			r.Traces++
 			if lean3 != go3 {
 				r.fail(Failure{Kind: "diff", Key: "blame/ecdsa-keygen-round3/" + t.typ + "." + t.field + "/" + t.kind, Op: line3, Go: go3, Lean: lean3})
+			}
+			// --- round 4: the peers' Paillier key proofs against the group key (the sum of everybody's first commitment point)
+			if go3 != "ok culprits=_" || len(r3) != n-1 || len(r22) != n {
+				continue
+			}
+			var pub *crypto.ECPoint
+			okPub := true
+			for j := 0; j < n && okPub; j++ {
+				d := r22[j].GetDeCommitment()
+				if len(d) < 3 {
+					okPub = false
+					break
+				}
+				pt, err := crypto.NewECPoint(ec, new(big.Int).SetBytes(d[1]), new(big.Int).SetBytes(d[2]))
+				if err != nil {
+					okPub = false
+					break
+				}
+				if pub == nil {
+					pub = pt
+				} else if pub, err = pub.Add(pt); err != nil {
+					okPub = false
+				}
+			}
+			if !okPub || (nd.Err == nil && len(nd.Ends) == 0) {
+				continue
+			}
+			var p4 []string
+			for j := 0; j < n; j++ {
+				if j != i {
+					p4 = append(p4, fmt.Sprintf("%d/%s/%s/%s", j, natHex(r1[j].GetPaillierN()), natHex(net.Nodes[j].ID.Key), natsHex(r3[j].GetPaillierProof())))
+				}
+			}
+			go4 := "ok culprits=_"
+			if nd.Err != nil {
+				if nd.Err.Round() != 4 || refusedBeforeStore(nd.Err) {
+					continue
+				}
+				go4 = "ok culprits=" + culpritSet(net, nd.Err)
+			}
+			lean4 := r.model.Call("ec_kg_round4", ePoint(pub), strings.Join(p4, ";"))
+			line4 := fmt.Sprintf("ec_kg_round4 %d … (%s.%s %s by party %d)", i, t.typ, t.field, t.kind, dev)
+			r.count("ec_kg_round4", go4, true, line4)
+			r.Traces++
+			if lean4 != go4 {
+				r.fail(Failure{Kind: "diff", Key: "blame/ecdsa-keygen-round4/" + t.typ + "." + t.field + "/" + t.kind, Op: line4, Go: go4, Lean: lean4})
 			}
 		}
 	}
